@@ -380,7 +380,7 @@ def run(ctx):
     ctx.cov["translated_spans"] = {k: v for k, v in spans.items() if k.startswith("grid.") and any(w in k for w in ("par", "it1d", "it2d", "steps_value", "steps2d_value"))}
     for m in msgs:
         ctx.proof_failures.append(("Gen/Grid.v", "translator", m))
-    proved = (not msgs) and prove(ctx, "C15", extra_targets=["Model/GridCheck.vo"])
+    proved = (not msgs) and prove(ctx, "C15", extra_targets=["Model/GridCheck.vo", "Props/C15_pins.vo"])
     tier = "thorough" if not quick else "quick"
     obs = run_harness(ctx, binp, ["c15", ctx.seed, 2 if quick else 10, "trees", tier], timeout=900)
     if not any(o["kind"] == "done" for o in obs):
